@@ -128,6 +128,8 @@ def scenario(g, i):
     s = gen.render(a, "Snake")
     tree += [{"p": "multi.txt", "k": "f", "c": ("é" + s + " " + s + "," + gen.render(a, "Camel") + " x" + s + "\r\n" + "☃ " + gen.render(a, "Pascal") + " " + s + "\nlast " + s).encode(), "m": 0o644},
              ]
+    tree += [{"p": "bom.txt", "k": "f", "m": 0o644,
+              "c": ("\ufeff" + s + " = Acme." + s + ".Core;\n\u00a0" + s + " " + s + "\n\u200b" + gen.render(a, "Pascal") + " " + s + " \n  " + s + "  " + s + "  \n").encode()}]
     if i % 5 == 0:
         tree += [{"p": "long.txt", "k": "f", "c": (("x" * 1500) + " " + s + " " + ("y" * 1500) + " " + s + "\n").encode(), "m": 0o644}]
     seen, out = set(), []
